@@ -1,0 +1,34 @@
+//! Verification hooks (cargo feature `verif-hooks`, off by default).
+//!
+//! `point` marks a place where a deterministic simulator may switch to another
+//! caller thread; `buggify` marks a usually-successful step that a simulator may
+//! ask to fail. With no callback installed both do nothing.
+use std::sync::RwLock;
+
+pub type PointFn = fn(&'static str);
+pub type BuggifyFn = fn(&'static str, &str) -> bool;
+
+static POINT: RwLock<Option<PointFn>> = RwLock::new(None);
+static BUGGIFY: RwLock<Option<BuggifyFn>> = RwLock::new(None);
+
+pub fn set_point(f: Option<PointFn>) {
+    *POINT.write().unwrap_or_else(|e| e.into_inner()) = f;
+}
+
+pub fn set_buggify(f: Option<BuggifyFn>) {
+    *BUGGIFY.write().unwrap_or_else(|e| e.into_inner()) = f;
+}
+
+#[inline]
+pub fn point(label: &'static str) {
+    let f = *POINT.read().unwrap_or_else(|e| e.into_inner());
+    if let Some(f) = f {
+        f(label)
+    }
+}
+
+#[inline]
+pub fn buggify(site: &'static str, name: &str) -> bool {
+    let f = *BUGGIFY.read().unwrap_or_else(|e| e.into_inner());
+    f.is_some_and(|f| f(site, name))
+}
